@@ -73,17 +73,26 @@ def Rect.height (a : Rect) : Int :=
 def Rect.width (a : Rect) : Int :=
   if a.c1 = 0 ∨ a.c2 = 0 then (MAX_COL : Int) else (a.c2 : Int) - (a.c1 : Int) + 1
 
-/-- `_union_instersection(self, other, min_, max_)` on corners and sizes; `isInter` selects (max, min) -/
+/-- one axis of `_union_instersection`: lower corners `a1`, `b1` (0 = unbounded side, which starts at 1 and with its
+    size MAX spans 1..MAX), sizes `wa`, `wb`; `ub` = this side of the result is unbounded again (stored as 0, 0).
+    `none` = empty. -/
+def combineAxis (isInter : Bool) (a1 b1 : Nat) (wa wb : Int) (ub : Bool) : Option (Nat × Nat) :=
+  let or1 (x : Nat) : Int := if x = 0 then 1 else (x : Int)
+  let lo : Int := if isInter then max (or1 a1) (or1 b1) else min (or1 a1) (or1 b1)
+  let hi : Int := (if isInter then min (or1 a1 + wa) (or1 b1 + wb) else max (or1 a1 + wa) (or1 b1 + wb)) - 1
+  if hi < lo then none else if ub then some (0, 0) else some (lo.toNat, hi.toNat)
+
+/-- `_union_instersection(self, other, min_, max_)` on corners and sizes; `isInter` selects (max, min).
+    A side of the result is unbounded when that side of both operands (`&`) / of either operand (`**`) is; when both
+    sides would be, the rows are written out (`1:1048576`). -/
 def combineCore (isInter : Bool) (a b : Rect) (ha wa hb wb : Int) : Res :=
   if a.sheet ≠ [] ∧ b.sheet ≠ [] ∧ a.sheet ≠ b.sheet then .value else
-  let lo (x y : Int) : Int := if isInter then max x y else min x y
-  let hi (x y : Int) : Int := if isInter then min x y else max x y
-  let minC := lo a.c1 b.c1
-  let minR := lo a.r1 b.r1
-  let maxC := hi (a.c1 + wa) (b.c1 + wb) - 1
-  let maxR := hi (a.r1 + ha) (b.r1 + hb) - 1
-  if maxC < minC ∨ maxR < minR then .null
-  else .rect ⟨if a.sheet ≠ [] then a.sheet else b.sheet, minC.toNat, minR.toNat, maxC.toNat, maxR.toNat⟩
+  let both (p q : Bool) : Bool := if isInter then p && q else p || q
+  let uc := both (a.c1 = 0 || a.c2 = 0) (b.c1 = 0 || b.c2 = 0)
+  let ur := !uc && both (a.r1 = 0 || a.r2 = 0) (b.r1 = 0 || b.r2 = 0)
+  match combineAxis isInter a.c1 b.c1 wa wb uc, combineAxis isInter a.r1 b.r1 ha hb ur with
+  | some (c1, c2), some (r1, r2) => .rect ⟨if a.sheet ≠ [] then a.sheet else b.sheet, c1, r1, c2, r2⟩
+  | _, _ => .null
 
 /-- `a & b` for two ranges -/
 def Rect.inter (a b : Rect) : Res := combineCore true a b a.height a.width b.height b.width
@@ -499,8 +508,9 @@ def Addr.combine (isInter : Bool) (a b : Addr) : Except PyErr Res :=
   | .rect r => if r.c1 > COL_LIMIT ∨ r.c2 > COL_LIMIT then .error .valueError else .ok (.rect r)
   | x => .ok x
 
-/-- the address object of a rectangle result: a cell when the corners coincide -/
-def Rect.toAddr (r : Rect) : Addr := ⟨!(r.c1 = r.c2 && r.r1 = r.r2), r⟩
+/-- the address object of a rectangle result: a cell when the corners coincide and no side is unbounded -/
+def Rect.toAddr (r : Rect) : Addr :=
+  ⟨!(r.c1 = r.c2 && r.r1 = r.r2) || r.c1 = 0 || r.c2 = 0 || r.r1 = 0 || r.r2 = 0, r⟩
 
 /-- operand of `&` / `**` as the operators see it: an address, or an error value of a previous operation -/
 inductive Operand where
@@ -531,7 +541,9 @@ def Addr.containsCell (a : Addr) (c : Addr) : Bool :=
   if a.isRange then a.rect.contains ⟨c.rect.sheet, c.rect.c1, c.rect.r1⟩
   else a.rect.sheet = c.rect.sheet ∧ a.rect.c1 = c.rect.c1 ∧ a.rect.r1 = c.rect.r1
 
+/-- `is_unbounded_range`: a side without bounds (a corner stored as 0); a bounded range that spans every column or
+    row of the sheet (`A1:XFD1`) is not unbounded -/
 def Addr.isUnbounded (a : Addr) : Bool :=
-  a.isRange && (a.rect.height = (MAX_ROW : Int) || a.rect.width = (MAX_COL : Int))
+  a.isRange && (a.rect.r1 = 0 || a.rect.r2 = 0 || a.rect.c1 = 0 || a.rect.c2 = 0)
 
 end Pycel.Addr
